@@ -259,6 +259,32 @@ def wrap_label_order(ctx) -> None:
     ctx.check('groups.setdefault(id(builder)' in text and '.fork()' in text, 'C03.label-order', b, 'actors built from one builder share one group (apply and train twins)', b.node, key='build:group')
 
 
+def copy_ports(ctx) -> None:
+    """Traversal.copy re-creates every subscription inside the copied segment between the copies of the same nodes on the
+    same ports: output port i of the copied publisher -> the subscriber's *own* input port."""
+    prog = ctx.prog
+    # Traversal.copy: publisher output index i -> subscriber's own input port
+    tc = prog.func(f'{SPAN}:Traversal.copy')
+    gen = next((n for n in ast.walk(tc.node) if isinstance(n, ast.GeneratorExp) and isinstance(n.elt, ast.Tuple) and len(n.elt.elts) == 2), None)
+    ok = False
+    if gen is not None:
+        pub, sub = [core.src(e) for e in gen.elt.elts]
+        enum = next((g for g in gen.generators if core.src(g.iter).startswith('enumerate(') and '.output' in core.src(g.iter)), None)
+        inner = next((g for g in gen.generators if isinstance(g.target, ast.Name) and enum is not None and core.src(g.iter) == core.src(enum.target.elts[1])), None) if enum is not None else None
+        if enum is not None and inner is not None:
+            o = core.src(enum.iter)[len('enumerate('):-len('.output)')]
+            i, s = core.src(enum.target.elts[0]), core.src(inner.target)
+            ok = pub == f'get({o})[{i}]' and sub == f'get({s}.node)[{s}.port]'
+    if gen is not None and ok:
+        ifs = [core.src(c) for g_ in gen.generators for c in g_.ifs]
+        s_ = core.src(inner.target)
+        conj = len(ifs) == 1 and isinstance(gen.generators[-1].ifs[0], ast.BoolOp) and isinstance(gen.generators[-1].ifs[0].op, ast.And) and not any(isinstance(b, ast.BoolOp) and isinstance(b.op, ast.Or) for b in ast.walk(gen.generators[-1].ifs[0]))
+        terms = [core.src(v) for v in gen.generators[-1].ifs[0].values] if conj else []
+        ctx.check(conj and f'{s_}.node in t.members' in terms, 'C03.copy', tc, f'only subscriptions whose subscriber lies inside the copied segment are re-created (conjunctive filter {ifs})', gen, key='Traversal.copy:members-only')
+    ctx.check(ok, 'C03.copy', tc, 'the copy connects output port i of the copied publisher to the subscriber\'s own input port (get(o)[i] -> get(s.node)[s.port])', gen or tc.node, key='Traversal.copy:ports')
+    ctx.check('copies.get(node) or copies.setdefault(node, node.fork())' in core.src(tc.node), 'C03.copy', tc, 'copied nodes are forks (same group => same state) created once per node', tc.node, key='Traversal.copy:fork')
+
+
 def primitives(ctx) -> None:
     prog = ctx.prog
     cc = prog.func(f'{MEMBER}:Compound.compose')
@@ -295,26 +321,8 @@ def primitives(ctx) -> None:
     ctx.check('self._tail[0].publisher' in core.src(sp.node) and 'self._head[0].subscribe(publisher)' in core.src(ss.node), 'C03.trunk', sp, 'a segment publishes from its tail and subscribes with its head', sp.node, key='Segment.io')
     sc = prog.func(f'{SPAN}:Segment.copy')
     ctx.check('copies = Traversal(self._head).copy(self._tail)' in core.src(sc.node) and 'return Segment(copies[self._head], copies[self._tail])' in core.src(sc.node), 'C03.trunk', sc, 'a segment copy spans the copies of its own head and tail', sc.node, key='Segment.copy')
-    # Traversal.copy: publisher output index i -> subscriber's own input port
+    copy_ports(ctx)
     tc = prog.func(f'{SPAN}:Traversal.copy')
-    gen = next((n for n in ast.walk(tc.node) if isinstance(n, ast.GeneratorExp) and isinstance(n.elt, ast.Tuple) and len(n.elt.elts) == 2), None)
-    ok = False
-    if gen is not None:
-        pub, sub = [core.src(e) for e in gen.elt.elts]
-        enum = next((g for g in gen.generators if core.src(g.iter).startswith('enumerate(') and '.output' in core.src(g.iter)), None)
-        inner = next((g for g in gen.generators if isinstance(g.target, ast.Name) and enum is not None and core.src(g.iter) == core.src(enum.target.elts[1])), None) if enum is not None else None
-        if enum is not None and inner is not None:
-            o = core.src(enum.iter)[len('enumerate('):-len('.output)')]
-            i, s = core.src(enum.target.elts[0]), core.src(inner.target)
-            ok = pub == f'get({o})[{i}]' and sub == f'get({s}.node)[{s}.port]'
-    if gen is not None and ok:
-        ifs = [core.src(c) for g_ in gen.generators for c in g_.ifs]
-        s_ = core.src(inner.target)
-        conj = len(ifs) == 1 and isinstance(gen.generators[-1].ifs[0], ast.BoolOp) and isinstance(gen.generators[-1].ifs[0].op, ast.And) and not any(isinstance(b, ast.BoolOp) and isinstance(b.op, ast.Or) for b in ast.walk(gen.generators[-1].ifs[0]))
-        terms = [core.src(v) for v in gen.generators[-1].ifs[0].values] if conj else []
-        ctx.check(conj and f'{s_}.node in t.members' in terms, 'C03.copy', tc, f'only subscriptions whose subscriber lies inside the copied segment are re-created (conjunctive filter {ifs})', gen, key='Traversal.copy:members-only')
-    ctx.check(ok, 'C03.copy', tc, 'the copy connects output port i of the copied publisher to the subscriber\'s own input port (get(o)[i] -> get(s.node)[s.port])', gen or tc.node, key='Traversal.copy:ports')
-    ctx.check('copies.get(node) or copies.setdefault(node, node.fork())' in core.src(tc.node), 'C03.copy', tc, 'copied nodes are forks (same group => same state) created once per node', tc.node, key='Traversal.copy:fork')
     # the path enumeration is complete: every path from the pivot to the tail is yielded - no pruning of nodes already met on
     # another path (a path reaching an explored node still contributes its own prefix to the copy)
     sg = tc.nested('segments')
